@@ -114,6 +114,12 @@ pub fn check_case(cs: &Case, st: &mut Stats) -> Result<(), Failure> {
                 st.known(F_D11);
                 continue;
             }
+            if v.model.ivs.iter().any(|i| i.lo.is_none() && i.hi.is_none()) {
+                // `Range::any()` survived: it prints as `*`, which re-parses to `>=0.0.0`; not a value
+                // reachable from parse, so the print/parse clause does not apply to it
+                st.class("result-contains-Range::any()");
+                continue;
+            }
             match guard(|| Range::parse(&v.text)) {
                 Ok(Ok(r1)) => {
                     for p in pv.iter().step_by(2) {
@@ -154,7 +160,7 @@ pub fn check_case(cs: &Case, st: &mut Stats) -> Result<(), Failure> {
 
 pub fn strategy() -> BoxedStrategy<Case> {
     vpool()
-        .prop_flat_map(|pool| (expr(pool.clone(), 1, 3), expr(pool.clone(), 1, 3), expr(pool.clone(), 1, 2), extra(pool)))
+        .prop_flat_map(|pool| (expr_with_any(pool.clone(), 1, 3), expr_with_any(pool.clone(), 1, 3), expr_with_any(pool.clone(), 1, 2), extra(pool)))
         .prop_map(|(a, b, c, extra)| Case { a, b, c, extra })
         .boxed()
 }
